@@ -269,6 +269,12 @@ def check_pairwise(c):
     for k1 in range(d - 1):
         for k2 in range(k1 + 1, d):
             y = y + 0.3 * (1 + ((k1 + 2 * k2) % 3)) * g[k1][grid[:, k1]] * g[k2][grid[:, k2]]
+            if c.get('nearsym') and shape[k1] == shape[k2]:
+                # a pair table that is symmetric up to a relative 3e-6: symmetric part u(i)u(j), small non-symmetric part u(i)v(j)
+                u = np.array([1.0 + 0.5 * j for j in range(shape[k1])])
+                v = np.array([(-1.0) ** j * (1 + j) for j in range(shape[k1])])
+                y = y + u[grid[:, k1]] * u[grid[:, k2]] + c['nearsym'] * u[grid[:, k1]] * v[grid[:, k2]]
+    y = y * c.get('scale', 1.0)
     dom, f0, f1, f2, M1, M2 = model(grid, y)
     E = np.zeros(shape)
     E[tuple(grid.T)] = y
@@ -285,7 +291,7 @@ def check_pairwise(c):
         tnum = max(int(np.sum(ref.unfold_sv(M2, k) > 1e-9 * ref.unfold_sv(M2, k)[0])) for k in range(1, d))
         if r >= tnum:
             dev = float(np.linalg.norm(ref.dense(Y) - M2)) / float(np.linalg.norm(M2))
-            res.check(dev <= 1e-7, 'pairwise.value', case,
+            res.check(dev <= (1e-7 if not c.get('nearsym') else 1e-9), 'pairwise.value', case,
                       lambda: 'order-2 tensor deviates from constant + per-mode + ALL pair terms by relative %.3e (d=%d, %d summands)' % (
                           dev, d, 1 + d * (d - 1) // 2), ['value'])
             res.nt((tuple(shape), r))
@@ -373,6 +379,8 @@ def strata(tier, seed):
     ad = [dict(shape=s) for d in (2, 3, 4) for s in space.shapes([d], [1, 2, 3, 4] if d < 4 else [2, 3])]
     yield Stratum('additive functions on full grids', ad, 'additive', size=len(ad), chunk=8, bounds={})
     pw = [dict(shape=[2] * d, rs=[4, 8, 16]) for d in (3, 4, 5, 6, 7)] + [dict(shape=[3, 2, 2, 3, 2, 2], rs=[8, 32])]
+    pw += [dict(shape=[n] * d, rs=[16, 64], nearsym=eps) for n in (3, 4) for d in (2, 3) for eps in (3e-6, 1e-7)]      # nearly symmetric pair tables
+    pw += [dict(shape=sh, rs=[16, 64], scale=sc) for sh in ([3, 3, 3], [2, 3, 4], [4, 4]) for sc in (1e-9, 1e-12, 1e9)]  # tiny / huge interactions
     yield Stratum('pair interactions on full grids, d up to 7', pw, 'pairwise', size=len(pw), chunk=1, bounds={'d': [3, 7], 'summands in add_many': 'up to 22'})
     fs0 = [dict(d=d, n=n, box=[-1., 1.], m=m, lambs=[0.0, 1e-7], dup=False, seed=seed, ignore_last=ig, scale=sc)
            for d in (2, 3) for n in (2, 3, 4) for m in (20, 40) for ig in (True, False) for sc in (1.0, 1e-17, 1e+12)]
